@@ -627,4 +627,193 @@ theorem freshListE_ok (g : Grammar) :
       exact ⟨freshE_ok g _ v, freshListE_ok g _ vs⟩
 end
 
+/-! ### Every node is labelled after memoised relabelling, in either depth mode -/
+
+theorem declSubtreesList_nil (g : Grammar) (tys : List (Option Ty)) : LVal.declSubtreesList g tys [] = [] := by
+  rw [LVal.declSubtreesList]
+theorem declSubtreesList_cons (g : Grammar) (tys : List (Option Ty)) (v : LVal) (vs : List LVal) :
+    LVal.declSubtreesList g tys (v :: vs) =
+      LVal.declSubtrees g tys.head?.join v ++ LVal.declSubtreesList g tys.tail vs := by
+  rw [LVal.declSubtreesList]
+
+theorem relabelMemoE_node_none_snd (g : Grammar) (decl : Option Ty) (c d e : Nat) (args : List LVal) :
+    (relabelMemoE g decl (.node none c d e args)).2 =
+      .node (some (relabelMemoE g decl (.node none c d e args)).1) c d e
+        (if g.isTerminalCls c then args
+         else (relabelMemoChildrenE g true ((g.cls c).fields.map fun f => some f.2) args).2) := by
+  rw [relabelMemoE_node_none]
+  by_cases h : g.isTerminalCls c <;> simp [h]
+
+theorem relabelMemoE_list_none_snd (g : Grammar) (decl : Option Ty) (d e : Nat) (vs : List LVal) :
+    (relabelMemoE g decl (.list none d e vs)).2 =
+      .list (some (relabelMemoE g decl (.list none d e vs)).1) d e
+        (relabelMemoChildrenE g true (List.replicate vs.length (decl.bind Ty.elem)) vs).2 := by
+  rw [relabelMemoE_list_none]
+
+mutual
+theorem memoE_fullyLabelled (g : Grammar) :
+    ∀ (decl : Option Ty) t, FieldlessTerminals g t.erase.subvalues → t.labelClosed = true →
+      (relabelMemoE g decl t).2.fullyLabelled = true
+  | decl, .node (some l) c d e args => by
+      intro _ hc
+      simpa [relabelMemoE, LVal.fullyLabelled, LVal.labelClosed] using hc
+  | decl, .node none c d e args => by
+      intro H hc
+      rw [relabelMemoE_node_none_snd]
+      by_cases h : g.isTerminalCls c
+      · have : args = [] := eraseList_eq_nil (by
+          rw [LVal.erase] at H; exact H.node_args h)
+        subst this
+        simp [h, LVal.fullyLabelled, fullyLabelledList_nil]
+      · rw [LVal.erase, subvalues_node] at H
+        have ih := memoListE_fullyLabelled g true ((g.cls c).fields.map fun f => some f.2) args H.tail (by simpa [LVal.labelClosed] using hc)
+        simp [h, LVal.fullyLabelled, ih]
+  | decl, .list (some l) d e vs => by
+      intro _ hc
+      simpa [relabelMemoE, LVal.fullyLabelled, LVal.labelClosed] using hc
+  | decl, .list none d e vs => by
+      intro H hc
+      rw [relabelMemoE_list_none_snd]
+      rw [LVal.erase, subvalues_list] at H
+      have ih := memoListE_fullyLabelled g true (List.replicate vs.length (decl.bind Ty.elem)) vs H.tail (by simpa [LVal.labelClosed] using hc)
+      simp [LVal.fullyLabelled, ih]
+  | decl, .tuple vs => by
+      intro H hc
+      rw [LVal.erase, subvalues_tuple] at H
+      have ih := memoListE_fullyLabelled g false (((decl.map Ty.comps).getD []).map some) vs H.tail (by simpa [LVal.labelClosed] using hc)
+      rw [relabelMemoE_tuple]
+      simp [LVal.fullyLabelled, ih]
+  | decl, .int _ => by intro _ _; simp [relabelMemoE, LVal.fullyLabelled]
+  | decl, .float => by intro _ _; simp [relabelMemoE, LVal.fullyLabelled]
+  | decl, .str _ => by intro _ _; simp [relabelMemoE, LVal.fullyLabelled]
+  | decl, .bool _ => by intro _ _; simp [relabelMemoE, LVal.fullyLabelled]
+  | decl, .foreign _ => by intro _ _; simp [relabelMemoE, LVal.fullyLabelled]
+theorem memoListE_fullyLabelled (g : Grammar) :
+    ∀ (ch : Bool) (tys : List (Option Ty)) ts, FieldlessTerminals g (Val.subvaluesList (LVal.eraseList ts)) →
+      LVal.labelClosedList ts = true →
+      LVal.fullyLabelledList (relabelMemoChildrenE g ch tys ts).2 = true
+  | ch, tys, [] => by intro _ _; simp [relabelMemoChildrenE_nil, LVal.fullyLabelledList]
+  | ch, tys, t :: ts => by
+      intro H hc
+      rw [eraseList_cons, subvaluesList_cons] at H
+      simp only [LVal.labelClosedList, Bool.and_eq_true] at hc
+      have ih1 := memoE_fullyLabelled g tys.head?.join t H.left hc.1
+      have ih2 := memoListE_fullyLabelled g ch tys.tail ts H.right hc.2
+      simp [relabelMemoChildrenE_cons, LVal.fullyLabelledList, ih1, ih2]
+end
+
+mutual
+theorem memoE_fixes_labelled (g : Grammar) :
+    ∀ (decl : Option Ty) (t : LVal), t.fullyLabelled = true → (relabelMemoE g decl t).2 = t
+  | decl, .node (some l) c d e args => by intro _; simp [relabelMemoE]
+  | decl, .node none c d e args => by intro h; simp [LVal.fullyLabelled] at h
+  | decl, .list (some l) d e vs => by intro _; simp [relabelMemoE]
+  | decl, .list none d e vs => by intro h; simp [LVal.fullyLabelled] at h
+  | decl, .tuple vs => by
+      intro h
+      simp only [LVal.fullyLabelled] at h
+      rw [relabelMemoE_tuple]
+      simp [memoListE_fixes_labelled g false (((decl.map Ty.comps).getD []).map some) vs h]
+  | decl, .int _ => by simp [relabelMemoE]
+  | decl, .float => by simp [relabelMemoE]
+  | decl, .str _ => by simp [relabelMemoE]
+  | decl, .bool _ => by simp [relabelMemoE]
+  | decl, .foreign _ => by simp [relabelMemoE]
+theorem memoListE_fixes_labelled (g : Grammar) :
+    ∀ (ch : Bool) (tys : List (Option Ty)) (ts : List LVal), LVal.fullyLabelledList ts = true →
+      (relabelMemoChildrenE g ch tys ts).2 = ts
+  | ch, tys, [] => by simp [relabelMemoChildrenE_nil]
+  | ch, tys, t :: ts => by
+      intro h
+      simp only [LVal.fullyLabelledList, Bool.and_eq_true] at h
+      simp [relabelMemoChildrenE_cons, memoE_fixes_labelled g _ t h.1, memoListE_fixes_labelled g ch _ ts h.2]
+end
+
+mutual
+theorem labelledE_flat (g : Grammar) :
+    ∀ (decl : Option Ty) t, CachesCorrectE g decl t → t.fullyLabelled = true →
+      ∀ p ∈ LVal.declSubtrees g decl t, p.2.canCache = true → p.2.rootCache = some (relabelE g p.1 p.2.erase)
+  | decl, .node o c d e args => by
+      intro H hf p hp hcan
+      simp only [CachesCorrectE] at H
+      simp only [LVal.fullyLabelled, Bool.and_eq_true] at hf
+      rw [LVal.declSubtrees] at hp
+      rcases List.mem_cons.1 hp with rfl | hp
+      · obtain ⟨l, rfl⟩ := Option.isSome_iff_exists.1 hf.1
+        simp [LVal.rootCache, LVal.erase, ← H.1 l rfl]
+      · exact labelledListE_flat g _ args H.2 hf.2 p hp hcan
+  | decl, .list o d e vs => by
+      intro H hf p hp hcan
+      simp only [CachesCorrectE] at H
+      simp only [LVal.fullyLabelled, Bool.and_eq_true] at hf
+      rw [LVal.declSubtrees] at hp
+      rcases List.mem_cons.1 hp with rfl | hp
+      · obtain ⟨l, rfl⟩ := Option.isSome_iff_exists.1 hf.1
+        simp [LVal.rootCache, LVal.erase, ← H.1 l rfl]
+      · exact labelledListE_flat g _ vs H.2 hf.2 p hp hcan
+  | decl, .tuple vs => by
+      intro H hf p hp hcan
+      simp only [CachesCorrectE] at H
+      simp only [LVal.fullyLabelled] at hf
+      rw [LVal.declSubtrees] at hp
+      rcases List.mem_cons.1 hp with rfl | hp
+      · simp [LVal.canCache] at hcan
+      · exact labelledListE_flat g _ vs H hf p hp hcan
+  | decl, .int _ => by intro _ _ p hp hcan; simp [LVal.declSubtrees] at hp; subst hp; simp [LVal.canCache] at hcan
+  | decl, .float => by intro _ _ p hp hcan; simp [LVal.declSubtrees] at hp; subst hp; simp [LVal.canCache] at hcan
+  | decl, .str _ => by intro _ _ p hp hcan; simp [LVal.declSubtrees] at hp; subst hp; simp [LVal.canCache] at hcan
+  | decl, .bool _ => by intro _ _ p hp hcan; simp [LVal.declSubtrees] at hp; subst hp; simp [LVal.canCache] at hcan
+  | decl, .foreign _ => by intro _ _ p hp hcan; simp [LVal.declSubtrees] at hp; subst hp; simp [LVal.canCache] at hcan
+theorem labelledListE_flat (g : Grammar) :
+    ∀ (tys : List (Option Ty)) ts, CachesCorrectListE g tys ts → LVal.fullyLabelledList ts = true →
+      ∀ p ∈ LVal.declSubtreesList g tys ts, p.2.canCache = true → p.2.rootCache = some (relabelE g p.1 p.2.erase)
+  | tys, [] => by intro _ _ p hp; simp [declSubtreesList_nil] at hp
+  | tys, t :: ts => by
+      intro H hf p hp hcan
+      simp only [CachesCorrectListE] at H
+      simp only [LVal.fullyLabelledList, Bool.and_eq_true] at hf
+      rw [declSubtreesList_cons] at hp
+      rcases List.mem_append.1 hp with hp | hp
+      · exact labelledE_flat g _ t H.1 hf.1 p hp hcan
+      · exact labelledListE_flat g _ ts H.2 hf.2 p hp hcan
+end
+
+mutual
+theorem declSubtrees_mem_subtrees (g : Grammar) :
+    ∀ (decl : Option Ty) (t : LVal) p, p ∈ LVal.declSubtrees g decl t → p.2 ∈ t.subtrees
+  | decl, .node o c d e args, p, hp => by
+      rw [LVal.declSubtrees] at hp
+      rw [subtrees_node]
+      rcases List.mem_cons.1 hp with rfl | hp
+      · exact List.mem_cons_self
+      · exact List.mem_cons_of_mem _ (declSubtreesList_mem_subtrees g _ args p hp)
+  | decl, .list o d e vs, p, hp => by
+      rw [LVal.declSubtrees] at hp
+      rw [subtrees_list]
+      rcases List.mem_cons.1 hp with rfl | hp
+      · exact List.mem_cons_self
+      · exact List.mem_cons_of_mem _ (declSubtreesList_mem_subtrees g _ vs p hp)
+  | decl, .tuple vs, p, hp => by
+      rw [LVal.declSubtrees] at hp
+      rw [subtrees_tuple]
+      rcases List.mem_cons.1 hp with rfl | hp
+      · exact List.mem_cons_self
+      · exact List.mem_cons_of_mem _ (declSubtreesList_mem_subtrees g _ vs p hp)
+  | decl, .int _, p, hp => by simp [LVal.declSubtrees] at hp; subst hp; simp [LVal.subtrees]
+  | decl, .float, p, hp => by simp [LVal.declSubtrees] at hp; subst hp; simp [LVal.subtrees]
+  | decl, .str _, p, hp => by simp [LVal.declSubtrees] at hp; subst hp; simp [LVal.subtrees]
+  | decl, .bool _, p, hp => by simp [LVal.declSubtrees] at hp; subst hp; simp [LVal.subtrees]
+  | decl, .foreign _, p, hp => by simp [LVal.declSubtrees] at hp; subst hp; simp [LVal.subtrees]
+theorem declSubtreesList_mem_subtrees (g : Grammar) :
+    ∀ (tys : List (Option Ty)) (ts : List LVal) p, p ∈ LVal.declSubtreesList g tys ts → p.2 ∈ LVal.subtreesList ts
+  | tys, [], p, hp => by simp [declSubtreesList_nil] at hp
+  | tys, t :: ts, p, hp => by
+      rw [declSubtreesList_cons] at hp
+      rw [subtreesList_cons]
+      rcases List.mem_append.1 hp with hp | hp
+      · exact List.mem_append_left _ (declSubtrees_mem_subtrees g _ t p hp)
+      · exact List.mem_append_right _ (declSubtreesList_mem_subtrees g _ ts p hp)
+end
+
+
 end GEVerif.Labels
